@@ -3,3 +3,13 @@ add("C01", "E1",
     "Every expression tree up to the stated size over a universal operator table (every priority-order / commutativity / identity / sign-like configuration that many operator occurrences can tell apart), every rendering within the deviation bound, through parse and parse_wo_compile; the symbolic result is the applied tree, so equality modulo AC with the reference tree decides all data types and variable values for those programs. Plus deterministic chains of 17..200 operands.",
     "Trusted: rustc/cargo, the reading of the documentation encoded in harness/src/spec.rs (lexer, parser, renderer; cross-checked on every case), parametricity of the library in the data type. Sizes beyond the bound are not covered.",
     "DESIGN.md §3 C01")
+add("C02", "E1",
+    "bounded-exhaustive enumeration of literal-rich expression trees through five folding pipelines + all token strings up to a length bound for the folded/unfolded differential, symbolic data type, reference tree oracle",
+    "Every tree up to the stated size with any mix of literals, constants and variables through parse, parse_wo_compile, re-compile (twice) and DeepEx::parse; a literal combined with a wrong neighbour changes the symbolic term, so equality modulo AC with the reference tree decides 'same function of the variables' for all assignments. All token strings up to length L decide the parse/parse_wo_compile differential on sloppy texts.",
+    "As C01. Commutative flags are only set on operators the oracle treats as AC (the property's own precondition).",
+    "DESIGN.md §3 C02")
+add("C03", "E1+E2",
+    "bounded-exhaustive enumeration of trees through flat/deep parsers and all conversion compositions, closure of the to_deepex/from_deepex state graph per tree, operator listings against bounds from the reference tree, and all token strings up to a length bound for flat vs deep",
+    "Every tree up to the stated size through FlatEx::parse, DeepEx::parse, to_deepex (compiled and uncompiled), from_deepex and compositions, each compared with the reference tree (variables + symbolic value modulo AC); the conversion graph is iterated to its structural fixpoint (decides 'any number of times'); sorted/duplicate-free listings with must/may bounds; all strings up to length L that both parsers accept.",
+    "As C01; only jointly accepted strings are compared.",
+    "DESIGN.md §3 C03")
